@@ -22,7 +22,7 @@ const TEXTS: &[&str] = &["a", "b", "ab", "c", "ba"];
 
 fn make_spec(rng: &mut Rng, name: &str) -> TableSpec {
     let sfx = name[name.len() - 1..].to_string();
-    let mut np = |rng: &mut Rng| *rng.pick(&[0u64, 200, 200, 400]);
+    let np = |rng: &mut Rng| *rng.pick(&[0u64, 200, 200, 400]);
     let mut cols = vec![ColSpec { name: format!("i1{}", sfx), ty: Ty::Int, null_pm: np(rng) }, ColSpec { name: format!("t2{}", sfx), ty: Ty::Text, null_pm: np(rng) }];
     match rng.below(3) {
         0 => cols.push(ColSpec { name: format!("i3{}", sfx), ty: Ty::Int, null_pm: np(rng) }),
@@ -857,7 +857,7 @@ impl<'a> Gen<'a> {
             if self.rng.chance(3, 10) {
                 let n = tys.len();
                 let k = self.rng.below(100);
-                let mut all_cols = false;
+                let all_cols;
                 if k < 50 {
                     for i in 0..n {
                         order_by.push(OrderKey::Ordinal(i + 1, self.rng.chance(3, 10)));
@@ -2275,7 +2275,7 @@ fn plan_ops(plan: &str, out: &mut BTreeMap<String, u64>) {
     }
 }
 
-const RULE: &str = "per database 2-3 generated tables (id PK + int/text[/int|float] columns, small overlapping value domains, NULL strata 0/20/40%, 3..25 rows, duplicates) and generated statements of four families: WHERE with [NOT] IN (subquery) / [NOT] EXISTS / comparison with a scalar subquery (correlated by = < > <> or not, NULL left operands, NULL-bearing and empty subquery results, combined by AND/OR/NOT with plain filters); subqueries in the select list (scalar: aggregate, primary-key lookup with zero/one row, multi-row => error expected; IN/EXISTS as truth values); derived tables in FROM (projection+filter, GROUP BY with aggregates/HAVING, aggregate-only, DISTINCT, nested, joined with a base table, over a set operation); UNION/INTERSECT/EXCEPT [ALL] over duplicate- and NULL-bearing inputs, chains of two operations (only where the flat text has one reading under standard precedence), trailing ORDER BY/LIMIT; nesting depth <= 3; four naming styles (bare, table-qualified, aliased, README-mixed). Each statement runs on TurDB and on the sqlm reference evaluator: sub-assertions bag / sorted / window / width / ok_vs_err (model error => TurDB must error, only where no evaluation order can avoid the error; model rows => TurDB must not error) / no_panic. A failing case is shrunk (drop WHERE/conjuncts/subquery filters/select items/set-operation branches, reduce nesting, delete table rows on fresh databases, replace NULL cells, strip qualifiers) while the same sub-assertion fails; signature = sub-assertion / subquery forms of the minimal statement / data facts evaluated in the model (null_in_subquery_result, null_left_operand, zero_rows, multi_rows, null_rows, dup_rows, null_group_key, inner_query_fails_alone) [context features]. distinct_nontrivial = distinct (statement text, table data) pairs judged whose model result depends on the mechanism (subquery predicate removed rows / non-empty result / both set-operation inputs non-empty / expected error)";
+const RULE: &str = "per database 2-3 generated tables (id PK + int/text[/int|float] columns, small overlapping value domains, NULL strata 0/20/40%, 3..25 rows, duplicates) and generated statements of four families: WHERE with [NOT] IN (subquery) / [NOT] EXISTS / comparison with a scalar subquery (correlated by = < > <> or not, NULL left operands, NULL-bearing and empty subquery results, combined by AND/OR/NOT with plain filters); subqueries in the select list (scalar: aggregate, primary-key lookup with zero/one row, multi-row => error expected; IN/EXISTS as truth values); derived tables in FROM (projection+filter, GROUP BY with aggregates/HAVING, aggregate-only, DISTINCT, nested, joined with a base table, over a set operation); UNION/INTERSECT/EXCEPT [ALL] over duplicate- and NULL-bearing inputs, chains of two operations (only where the flat text has one reading under standard precedence), trailing ORDER BY/LIMIT; nesting depth <= 3; four naming styles (bare, table-qualified, aliased, README-mixed). Each statement runs on TurDB and on the sqlm reference evaluator: sub-assertions bag / sorted / window / width / ok_vs_err (model error => TurDB must error, only where no evaluation order can avoid the error; model rows => TurDB must not error) / no_panic. A failing case is shrunk (drop WHERE/conjuncts/subquery filters/select items/set-operation branches, reduce nesting, delete table rows and replace NULL cells on a working database, strip qualifiers, canonicalise aggregate / set-operation kind / EXISTS select list / SELECT * where the failure does not need them; the first minimal case of every signature is confirmed on a fresh database) while the same sub-assertion fails; signature = sub-assertion / subquery forms of the minimal statement / data facts evaluated in the model (null_in_subquery_result, null_left_operand, zero_rows, multi_rows, null_rows, dup_rows, null_group_key) [context features]; when a closed inner query already fails on its own the signature is inner_query_fails_alone:<its sub-assertion>[its features]. distinct_nontrivial = distinct (statement text, table data) pairs judged whose model result depends on the mechanism (subquery predicate removed rows / non-empty result / both set-operation inputs non-empty / expected error)";
 
 pub fn run(a: &Args) -> i32 {
     let mut ctx = Ctx::new("C18", &a.tier, a.seed, "exploration", RULE);
